@@ -113,6 +113,63 @@ pub fn gen_plans(rng: &mut Prng, trace: &Trace, n_plans: usize) -> Vec<Vec<CellE
     plans
 }
 
+/// The late-edit stage of the Byzantine prover on one honest table: every edit
+/// is applied to the whole copy cycle of its cell, followed by local repair; the
+/// gates next to the changed cells are evaluated first and the full checker runs
+/// only when they hold; the table is restored after each edit. `on_accept`
+/// judges the public values an accepted table binds.
+#[allow(clippy::too_many_arguments)]
+pub fn late_stage<C: midnight_proofs::plonk::Circuit<Fq>>(
+    k: u32,
+    known: &dyn Fn() -> C,
+    lates: &[LateEdit],
+    fault_seed: u64,
+    digest_key: &str,
+    st: &mut Stats,
+    on_accept: &mut dyn FnMut(&LateEdit, usize, usize, &[Fq]) -> Option<Viol>,
+) -> Option<Viol> {
+    let mut base = if lates.is_empty() { None } else { run_mock(k, &known(), &[], false).prover };
+    let snapshot = base.as_ref().map(|p| p.advice().clone());
+    for le in lates {
+        let Some(p) = base.as_mut() else { break };
+        let snap = snapshot.as_ref().unwrap();
+        if p.advice() != snap {
+            for (ci, col) in snap.iter().enumerate() {
+                p.advice_mut()[ci].clone_from(col);
+            }
+        }
+        let Some(mut touched) = apply_late(p, le) else {
+            st.inc("late.skipped_constant_cycle");
+            continue;
+        };
+        let n_cycle = touched.len();
+        st.fault("byzantine_late_cell");
+        st.nontrivial(prng::digest(format!("{digest_key}|late|{}", serde_json::to_string(le).unwrap()).as_bytes()));
+        let mut rrng = Prng::new(fault_seed, &format!("late-repair{}", serde_json::to_string(le).unwrap()));
+        let made = rayon::sim::isolated(1, || crate::repair::attempt(p, &mut touched, &mut rrng, 4));
+        if made > 0 {
+            st.fault("byzantine_repair");
+        }
+        // (touched now also lists the cells changed by the repairs)
+        if crate::repair::local_failures(p, &touched) > 0 {
+            // a gate next to the changed cells fails: the full checker would reject
+            st.inc("late.rejected");
+            st.inc("late.rejected_by_local_gate");
+            continue;
+        }
+        let (v, bp, _) = crate::opcirc::bind_and_verify(p);
+        if v == MockVerdict::Accept {
+            st.inc("late.accepted");
+            if let Some(viol) = on_accept(le, n_cycle, made, &bp) {
+                return Some(viol.with_hint(json!({"late": le})));
+            }
+        } else {
+            st.inc("late.rejected");
+        }
+    }
+    None
+}
+
 /// Late edits: cells drawn from the honest tables (n_plans == 0: every
 /// assigned cell once per fault value, capped).
 pub fn gen_lates(rng: &mut Prng, honest: Option<&midnight_proofs::dev::MockProver<Fq>>, trace: &Trace, n_plans: usize) -> Vec<LateEdit> {
@@ -534,67 +591,33 @@ fn run_generic<C: midnight_proofs::plonk::Circuit<Fq>>(s: &Scn, st: &mut Stats, 
         (None, Some(_)) => vec![],
         (None, None) => gen_lates(&mut Prng::new(s.fault_seed, "late"), honest.prover.as_ref(), &honest.trace, if s.n_plans == 0 { 0 } else if k >= 14 { 2 } else { (4 * s.n_plans).max(12) }),
     };
-    // one honest table, restored after every edit
     let mut lates = lates;
     if k >= 14 && s.only_late.is_none() {
         lates.truncate(40);
     }
-    let mut base = if lates.is_empty() { None } else { run_mock(k, &known(), &[], false).prover };
-    let snapshot = base.as_ref().map(|p| p.advice().clone());
-    for le in &lates {
-        let Some(p) = base.as_mut() else { break };
-        let snap = snapshot.as_ref().unwrap();
-        if p.advice() != snap {
-            for (ci, col) in snap.iter().enumerate() {
-                p.advice_mut()[ci].clone_from(col);
-            }
-        }
-        let mut p = &mut *p;
-        let Some(mut touched) = apply_late(&mut p, le) else {
-            st.inc("late.skipped_constant_cycle");
-            continue;
-        };
-        st.fault("byzantine_late_cell");
-        st.nontrivial(prng::digest(format!("{}|late|{}", case.static_key(), serde_json::to_string(le).unwrap()).as_bytes()));
-        let mut rrng = Prng::new(s.fault_seed, &format!("late-repair{}", serde_json::to_string(le).unwrap()));
-        let made = rayon::sim::isolated(1, || crate::repair::attempt(&mut p, &mut touched, &mut rrng, 4));
-        if made > 0 {
-            st.fault("byzantine_repair");
-        }
-        // (touched now also lists the cells changed by the repairs)
-        if crate::repair::local_failures(p, &touched) > 0 {
-            // a gate next to the changed cells fails: the full checker would reject
-            st.inc("late.rejected");
-            st.inc("late.rejected_by_local_gate");
-            continue;
-        }
-        let (v, bp, _) = crate::opcirc::bind_and_verify(&mut p);
-        if v == MockVerdict::Accept {
-            st.inc("late.accepted");
-            if let Some(e) = unsound(case, &bp) {
-                return Verdict::Violation(
-                    Viol::new(
-                        "Unsound",
-                        format!("Unsound:{}{}", case.op, ops::published_class(case, &bp)),
-                        format!(
-                            "{} {:?} {:?}: after honest witness generation, replacing the value of advice cell (column {}, row {}) and of its copy cycle ({} cells) by {:?}{} leaves the circuit satisfied with public values {:?}: {e}",
-                            case.op,
-                            case.p,
-                            case.big,
-                            le.col,
-                            le.row,
-                            touched.len(),
-                            le.val,
-                            if made > 0 { format!(", with {made} local repair(s)") } else { String::new() },
-                            pubs(&bp)
-                        ),
-                    )
-                    .with_hint(json!({"late": le})),
-                );
-            }
-        } else {
-            st.inc("late.rejected");
-        }
+    let digest_key = case.static_key();
+    let r = late_stage(k, &known, &lates, s.fault_seed, &digest_key, st, &mut |le, n_cycle, made, bp| {
+        unsound(case, bp).map(|e| {
+            Viol::new(
+                "Unsound",
+                format!("Unsound:{}{}", case.op, ops::published_class(case, bp)),
+                format!(
+                    "{} {:?} {:?}: after honest witness generation, replacing the value of advice cell (column {}, row {}) and of its copy cycle ({} cells) by {:?}{} leaves the circuit satisfied with public values {:?}: {e}",
+                    case.op,
+                    case.p,
+                    case.big,
+                    le.col,
+                    le.row,
+                    n_cycle,
+                    le.val,
+                    if made > 0 { format!(", with {made} local repair(s)") } else { String::new() },
+                    pubs(bp)
+                ),
+            )
+        })
+    });
+    if let Some(v) = r {
+        return Verdict::Violation(v);
     }
     if let Some(m) = DEFERRED.with(|d| d.borrow_mut().take()) {
         // reported last, so that it never masks another violation of the same run
